@@ -24,7 +24,8 @@ LEVEL_NOTE = (
 )
 BUDGET = {"quick": 50.0, "thorough": 600.0}
 RULE = (
-    "seeded generation of (configuration x parameter set x param groups x event history); every run drives the real "
+    "seeded generation of (configuration x parameter set x param groups x event history of steps, scheduler writes and in-place "
+    "parameter rescalings by the user); every run drives the real "
     "optimizer through the history and checks, after every step and for every block, parameters and every state tensor "
     "against the float64 reference model R advanced from the optimizer's actual pre-state. A run is non-trivial when at "
     "least one block step was checked; distinct = distinct (group configuration feature vector, set of (phase, presence "
